@@ -324,6 +324,16 @@ class Machine:
             else:
                 raise ValueError(vop)
             self.objs[new] = (no, requalify(ck, nt), root, npos, nk)
+            if len(self.objs) % 2 == 0:
+                # what the VHDL back end does when it formats a reference to this view: fold the constant offsets of
+                # its reference (RefSpec.simplify()).  Formatting one view must not change what any OTHER view names
+                # (all views are re-checked after every operation)
+                try:
+                    for e_ in list(getattr(no, "_ref_spec", []) or []):
+                        e_.simplify()
+                    self.stats["views_formatted_like_the_backend"] = self.stats.get("views_formatted_like_the_backend", 0) + 1
+                except Exception:
+                    self.stats["backend_format_failed"] = self.stats.get("backend_format_failed", 0) + 1
         elif k == "write":
             o, ck, root, pos, kind = self.objs[op[1]]
             n = len(pos)
